@@ -14,12 +14,12 @@ import (
 // valsetInv is the C06 oracle: the validator updates handed to the consensus engine at the
 // end of the block that closes a dogfood epoch produce exactly the eligible top set.
 type valsetInv struct {
-	epochBefore     int64
-	closingBlock    bool // the block in progress is one whose BeginBlock closed a dogfood epoch
-	prevSet         map[string]int64 // consensus address -> power, before the EndBlock being judged
+	epochBefore  int64
+	closingBlock bool             // the block in progress is one whose BeginBlock closed a dogfood epoch
+	prevSet      map[string]int64 // consensus address -> power, before the EndBlock being judged
 	// statistics
 	sawAdd, sawRemove, sawChange, sawTieAtCut, sawOverMax bool
-	epochEndsJudged                                          int
+	epochEndsJudged                                       int
 }
 
 func (v *valsetInv) Init(m *Machine) error {
